@@ -56,6 +56,8 @@ def main(argv=None):
         return 1 if reproduced else 0
     res = mod.run(a.tier, seed)
     wall = time.time() - t0
+    if os.environ.get("NSLMC_DUMP"):
+        json.dump(res["failures"], open(os.environ["NSLMC_DUMP"], "w"), indent=1, default=str)
     nviol, known_hits = findings.settle(prop, res["failures"], confirm=_confirm(prop))
     cov = dict(res["coverage"])
     cov["known_finding_hits"] = known_hits
